@@ -566,7 +566,8 @@ func Gen(r *rand.Rand, o GenOpts) []string {
 	// application-side options: "L mode n flags"
 	//   mode: ApplyEvent listener policy (not for C09: its reference instance starts mid-run);
 	//         3 = the application installs no BeginBlock at all (no blocks, no sealing)
-	//   flags: 1 = EndBlock is nil on the blocks that do not seal; 2 = one-byte vector caches in the index
+	//   flags: 1 = EndBlock is nil on the blocks that do not seal; 2 = one-byte vector caches in the index;
+	//          4 = index built over a custom vecengine.Engine without the optional OnDropNotFlushed callback
 	lmode, ln, lflags := 0, 0, 0
 	if o.Mix != "C09" && ((o.Mix == "C02" && r.Intn(3) == 0) || r.Intn(8) == 0) {
 		if r.Intn(2) == 0 {
@@ -582,6 +583,14 @@ func Gen(r *rand.Rand, o GenOpts) []string {
 	}
 	if r.Intn(4) == 0 {
 		lflags |= 2
+	}
+	// flag 4: DAG index over a custom vecengine (no OnDropNotFlushed callback, vector caches off)
+	f4rate := map[string]int{"C07": 3, "C04": 4, "C08": 4}[o.Mix]
+	if f4rate == 0 {
+		f4rate = 10
+	}
+	if r.Intn(f4rate) == 0 {
+		lflags |= 4
 	}
 	if lmode != 0 || lflags != 0 {
 		add("L", fmt.Sprint(lmode), fmt.Sprint(ln), fmt.Sprint(lflags))
